@@ -17,6 +17,37 @@ static void coq_string(const char* s) {
   putchar('"');
 }
 
+// added for C11/C13/C18/C07 (Model/Os.v, Mask.v, Purge.v): a separate generated file Gen/OsConsts.v
+static void dump_os_consts(void) {
+  printf("@@FILE OsConsts.v\n");
+  printf("(* GENERATED from /repo by harness/gen_dump.c -- do not edit *)\n");
+  printf("From Coq Require Import NArith ZArith.\n");
+  CNV("MI_SEGMENT_ALIGN_", MI_SEGMENT_ALIGN);
+  CNV("MI_HINT_BASE_", MI_HINT_BASE); CNV("MI_HINT_AREA_", MI_HINT_AREA); CNV("MI_HINT_MAX_", MI_HINT_MAX);
+  CNV("MI_VIRTUAL_ADDRESS_BITS_", MI_DEFAULT_VIRTUAL_ADDRESS_BITS);
+  CNV("PROT_NONE_", PROT_NONE); CNV("PROT_RW_", PROT_READ | PROT_WRITE);
+  CNV("MADV_DONTNEED_", MADV_DONTNEED);
+#if defined(MADV_FREE)
+  CNV("MADV_FREE_", MADV_FREE);
+#else
+  CNV("MADV_FREE_", MADV_DONTNEED);
+#endif
+#if !MI_DEBUG && !MI_SECURE
+  CNV("PRIM_DECOMMIT_NEEDS_RECOMMIT_", 0);   // _mi_prim_decommit: madvise only
+#else
+  CNV("PRIM_DECOMMIT_NEEDS_RECOMMIT_", 1);   // ... plus mprotect(PROT_NONE)
+#endif
+  CNV("sizeof_mi_thread_data_t", sizeof(mi_thread_data_t));
+  CNV("sizeof_mi_arena_t", sizeof(mi_arena_t));
+  CZV("default_purge_delay", options[mi_option_purge_delay].value);
+  CZV("default_purge_decommits", options[mi_option_purge_decommits].value);
+  CZV("default_arena_purge_mult", options[mi_option_arena_purge_mult].value);
+  CZV("default_purge_extend_delay", options[mi_option_purge_extend_delay].value);
+  CZV("default_arena_eager_commit", options[mi_option_arena_eager_commit].value);
+  CZV("default_eager_commit", options[mi_option_eager_commit].value);
+  CZV("default_eager_commit_delay", options[mi_option_eager_commit_delay].value);
+}
+
 int main(void) {
   printf("@@FILE Consts.v\n");
   printf("(* GENERATED from /repo by harness/gen_dump.c -- do not edit *)\n");
@@ -80,6 +111,8 @@ int main(void) {
   for (size_t i = 0; i <= MI_SEGMENT_BIN_MAX; i++) printf("%s%zu", i? "; ":"", tld_empty.segments.spans[i].slice_count);
   printf("].\n");
 
+  dump_os_consts();
+
   printf("@@FILE Options.v\n");
   printf("(* GENERATED from /repo by harness/gen_dump.c -- do not edit *)\n");
   printf("From Coq Require Import ZArith List String.\nImport ListNotations.\nLocal Open Scope string_scope.\n");
@@ -97,5 +130,13 @@ int main(void) {
   printf("Definition opt_arena_reserve : nat := %d.\n", (int)mi_option_arena_reserve);
   printf("Definition LONG_MAX_ : Z := (%ld)%%Z.\n", LONG_MAX);
   printf("Definition MI_MAX_DELAY_OUTPUT_ : Z := (%ld)%%Z.\n", (long)MI_MAX_DELAY_OUTPUT);
+  // appended for C20 (Model/Opt.v)
+  printf("Definition opt_guarded_min : nat := %d.\n", (int)mi_option_guarded_min);
+  printf("Definition opt_guarded_max : nat := %d.\n", (int)mi_option_guarded_max);
+  printf("Definition opt_verbose : nat := %d.\n", (int)mi_option_verbose);
+  printf("Definition LONG_MIN_ : Z := (%ld)%%Z.\n", LONG_MIN);
+  printf("Definition MI_KiB_ : N := %zu%%N.\n", (size_t)MI_KiB);
+  printf("Definition MI_MiB_ : N := %zu%%N.\n", (size_t)MI_MiB);
+  printf("Definition MI_GiB_ : N := %zu%%N.\n", (size_t)MI_GiB);
   return 0;
 }
